@@ -32,6 +32,8 @@ PY = "/venv/bin/python"
 REPO_SRC = os.environ.get("VERIF_REPO", "/repo") + "/src"
 ERRNOS = {"ENOSPC": 28, "EACCES": 13, "EIO": 5, "EINTR": 4, "EROFS": 30}
 FINDING_TEMP = "C16-cleanup-fault-leaves-temp"
+SHORT = "short"        # fault kind for a raw os.write on a tracked descriptor: a proper prefix is written, the count returned
+RAW_WRITE_OPS = ("os_write",)
 
 OLD = '===DOC===\nMETA:\n  TYPE::NOTE\nA::1\nB::"café au lait"\n===END===\n'
 NEW = '===DOC===\nMETA:\n  TYPE::NOTE\nA::2\nC::[x,y]\nB::"naïve text"\n===END===\n'
@@ -88,8 +90,10 @@ def _call(api, target, args):
 def _job_call(fi, job):
     """One call under a fault plan.  Result -> job['res'] (outside the sandbox root)."""
     log_fd = os.open(job["log"], os.O_WRONLY | os.O_CREAT | os.O_APPEND, 0o600)
+    fa = job.get("fail_at") or {}
     plan = fi.Plan(job["root"], job["target"], log_fd=log_fd, crash_at=job.get("crash_at"),
-                   fail_at={int(k): int(v) for k, v in (job.get("fail_at") or {}).items()})
+                   fail_at={int(k): int(v) for k, v in fa.items() if v != SHORT},
+                   short_at={int(k) for k, v in fa.items() if v == SHORT})
     plan.enabled = False
     fi.set_plan(plan)
     out = {}
@@ -535,7 +539,7 @@ def judge(sc, rec, canon_set, fail_at):
 # driver
 # =================================================================================================
 def plan_key(crash_at, fail_at):
-    return json.dumps([crash_at, sorted((int(k), v) for k, v in (fail_at or {}).items())])
+    return json.dumps([crash_at, sorted((int(k), str(v)) for k, v in (fail_at or {}).items())])
 
 
 def fs_variant(sc, data):
@@ -632,6 +636,8 @@ def _run(ctx, pool):
             tasks.append((n, k, None))
             for e in ERRNOS.values():
                 tasks.append((n, None, {k: e}))
+            if base[n]["trace"][k] in RAW_WRITE_OPS:
+                tasks.append((n, None, {k: SHORT}))
     # corpus first
     corpus = []
     cdir = VERIF / "corpus" / "C16"
@@ -640,8 +646,17 @@ def _run(ctx, pool):
             c = json.loads(p.read_text())
             if c.get("scenario") in S:
                 corpus.append((p.name, c))
-    corpus_tasks = [(c["scenario"], c.get("crash_at"), {int(k): v for k, v in (c.get("fail_at") or {}).items()} or None)
-                    for _, c in corpus]
+    corpus_tasks = []
+    for _, c in corpus:
+        fa = {int(k): v for k, v in (c.get("fail_at") or {}).items()}
+        # position-independent witnesses: "faults": [[op name, occurrence, errno name | "short"], ..] are resolved one after
+        # the other against the trace the faults resolved so far produce (op indices move when the source changes)
+        for op, occ, err in c.get("faults") or []:
+            tr = pool.map(_worker, [(S[c["scenario"]], None, dict(fa) or None, None)])[0].get("trace", [])
+            ks = [k for k, o in enumerate(tr) if o == op]
+            if len(ks) > occ:
+                fa[ks[occ]] = SHORT if err == SHORT else ERRNOS[err]
+        corpus_tasks.append((c["scenario"], c.get("crash_at"), fa or None))
 
     results = []        # (name, crash_at, fail_at, rec)
 
@@ -670,8 +685,17 @@ def _run(ctx, pool):
         for k2 in range(k1 + 1, len(rec["trace"])):
             for e2 in e_list:
                 pair_tasks.append((n, None, {k1: e1, k2: e2}))
+            if rec["trace"][k2] in RAW_WRITE_OPS:
+                pair_tasks.append((n, None, {k1: e1, k2: SHORT}))
             pair_tasks.append((n, k2, {k1: e1}))
     if ctx.quick():
+        # a swallowed first failure followed by a short raw write (few: only where a raw write exists)
+        for (n, ca, fa), rec in zip(tasks, singles):
+            if fa and list(fa.values())[0] == ERRNOS["EIO"]:
+                (k1, e1), = fa.items()
+                for k2 in range(k1 + 1, len(rec["trace"])):
+                    if rec["trace"][k2] in RAW_WRITE_OPS:
+                        pair_tasks.append((n, None, {k1: e1, k2: SHORT}))
         cand = [((n, ca, fa), rec) for (n, ca, fa), rec in zip(tasks, singles) if fa]
         for _ in range(600):
             (n, _ca, fa), rec = ctx.rng.choice(cand)
@@ -689,7 +713,7 @@ def _run(ctx, pool):
             continue
         (k1, e1), = fa.items()
         if e1 != ERRNOS["ENOSPC"]:
-            continue
+            continue      # (a SHORT first fault is not an int and is skipped here too)
         for k2 in range(k1 + 1, len(rec["trace"])):
             if rec["trace"][k2] in ("unlink:temp", "ospath_exists:temp"):
                 pair_tasks.append((n, None, {k1: e1, k2: ERRNOS["EIO"]}))
@@ -704,28 +728,38 @@ def _run(ctx, pool):
 
     # ---- model predictions ---------------------------------------------------------------------------------------
     model = [None] * len(results)
+    n_short = sum(1 for _, _, fa, _ in results if fa and SHORT in fa.values())
     if have_model:
-        lines = []
-        for n, ca, fa, rec in results:
-            sc = S[n]
-            nval = nval_of(base[n]["trace"])
-            extra = [e for e in new_entries(rec, sc) if rec["after"][e][0] == "F"]
-            L = 0
-            if len(extra) == 1:
-                try:
-                    L = len(rec["after"][extra[0]][1].decode("utf-8"))
-                except UnicodeDecodeError:
-                    L = 0
-            orc = {}
-            for k, op in enumerate(rec["trace"]):
-                if op in ("write", "flush", "close"):
-                    orc[k] = L
-            lines.append(model_line(sc, pipe[n], nval, ca, fa, orc, texts_of(n)))
-        outs = run_driver("fsw", lines)
-        for i, o in enumerate(outs):
-            model[i] = parse_model(o)
-            if model[i] is None:
-                ctx.correspondence_failure({"line": lines[i][:300]}, f"model driver answered {o[:200]}")
+        # the model side must never stop the implementation-side search below: a missing / stale / crashing driver
+        # is a broken correspondence, the runs are still judged by the property itself
+        try:
+            lines, idx = [], []
+            for i, (n, ca, fa, rec) in enumerate(results):
+                if fa and SHORT in fa.values():
+                    continue      # a short raw write is outside the protocol language (the translator fails closed on os.write)
+                sc = S[n]
+                nval = nval_of(base[n]["trace"])
+                extra = [e for e in new_entries(rec, sc) if rec["after"][e][0] == "F"]
+                L = 0
+                if len(extra) == 1:
+                    try:
+                        L = len(rec["after"][extra[0]][1].decode("utf-8"))
+                    except UnicodeDecodeError:
+                        L = 0
+                orc = {}
+                for k, op in enumerate(rec["trace"]):
+                    if op in ("write", "flush", "close"):
+                        orc[k] = L
+                lines.append(model_line(sc, pipe[n], nval, ca, fa, orc, texts_of(n)))
+                idx.append(i)
+            outs = run_driver("fsw", lines)
+            for i, line, o in zip(idx, lines, outs):
+                model[i] = parse_model(o)
+                if model[i] is None:
+                    ctx.correspondence_failure({"line": line[:300]}, f"model driver answered {o[:200]}")
+        except Exception as e:  # noqa: BLE001
+            model = [None] * len(results)
+            ctx.correspondence_failure({"driver": "fsw"}, f"model predictions unavailable: {type(e).__name__}: {str(e)[:300]}")
 
     # ---- evaluate ---------------------------------------------------------------------------------------------------
     residue = 0
@@ -737,6 +771,8 @@ def _run(ctx, pool):
                 "target": sc["target"], "crash_at": ca, "fail_at": fa, "trace": rec["trace"], "outcome": list(outcome_of(rec))}
         oc = outcome_of(rec)
         kind = "fault-free" if (ca is None and not fa) else ("kill" if not fa else ("fail" if ca is None and len(fa) == 1 else "pair"))
+        if fa and SHORT in fa.values():
+            kind += "+short"
         ctx.hist("plan_kind", kind)
         ctx.hist("scenario", n)
         ctx.hist("outcome", oc[0] + (":" + oc[1] if oc[0] == "error" else ""))
@@ -778,7 +814,7 @@ def _run(ctx, pool):
             json.dump({"corr": ctx.corr_failures, "prop": ctx.prop_failures}, f, default=str)
     ctx.extra["rule"] = (
         "one evaluation = one child run of one scenario under one fault plan (fault-free | kill at op k | OSError errno at op k | "
-        "pair), judged by the property and compared with `fsw run`; distinct = distinct (scenario, plan); every op instance of "
+        "pair | short raw write where a raw os.write exists), judged by the property and compared with `fsw run`; distinct = distinct (scenario, plan); every op instance of "
         "every scenario's fault-free trace is used as kill point and with all 5 errnos; pairs: "
         + ("600 sampled (k1,e1,k2,e2|kill) + every cleanup op as 2nd failure" if ctx.quick() else
            "for every first failure (k1, e1 in the 5 errnos): every later op instance k2 of the trace that failure produces x {the 5 errnos, kill}"))
@@ -786,6 +822,14 @@ def _run(ctx, pool):
                                   "outcome": list(outcome_of(base[n]))} for n in names}
     ctx.extra["runs"] = {"corpus": n_corpus, "singles_and_kills": len(tasks), "pairs": len(uniq), "oracle_runs": len(oracle_tasks)}
     ctx.extra["model_compared"] = sum(1 for m in model if m is not None)
+    raw_sites = {n: [k for k, op in enumerate(base[n]["trace"]) if op in RAW_WRITE_OPS] for n in names}
+    ctx.extra["short_write_plans"] = {
+        "applicable_runs": n_short,
+        "raw_os_write_op_instances_fault_free": sum(len(v) for v in raw_sites.values()),
+        "scenarios_with_raw_os_write": sorted(n for n, v in raw_sites.items() if v),
+        "note": "fault kind `short` (a raw os.write on a tracked sandbox descriptor writes a proper prefix and RETURNS the count) is "
+                "planned at every op instance named os_write, singly and as 1st/2nd element of pairs; the unchanged tree writes only "
+                "through the buffered file object (CPython loops on short writes there), so 0 plans are applicable on it"}
     ctx.extra["error_runs_leaving_new_directories"] = residue
     ctx.extra["note_mkdir_residue"] = ("an error after mkdir(parents=True) leaves the new directories (model: C16_error_no_residue_refuted); "
                                        "the C16 text demands only 'target identical, no temporary file beside it', so this is counted here "
